@@ -189,6 +189,9 @@ func runOne(l *Loaded, hs HarnessSpec, seed int) *HarnessResult {
 	if v, ok := hs.Params["$maxalloc"]; ok {
 		cfg.MaxAlloc = v
 	}
+	if v, ok := hs.Params["$race"]; ok {
+		cfg.Race = v != 0
+	}
 	if v, ok := hs.Params["$dedup"]; ok {
 		cfg.Dedup = v != 0
 	}
